@@ -106,6 +106,7 @@ impl Prop for C06 {
                     pool: Pool::Overlap,
                     templates: false,
                     ambiguous_ok: false,
+                    ..gen::BnfParams::lr_small()
                 },
                 inputs,
                 16,
